@@ -38,6 +38,9 @@ var (
 	EventLog func(string)
 	// Clock is the simulated wall clock.
 	Clock = time.Date(2026, 1, 2, 3, 4, 5, 6, time.UTC)
+	// Ambient != 0 simulates "another machine / another process": pid, hostname and every environment
+	// variable other than the documented TEMPLATE_DEBUG read through the os shim are perturbed.
+	Ambient int
 	// Templates records names passed to the template probe.
 	Templates = map[string]int{}
 )
